@@ -5,6 +5,11 @@ MCUrls == {"rtsp://h1/a", "rtsp://h2/b/"}
 MCUserNames == <<"bob", "eve">>
 MCPaths == <<"/s/one", "/s/two">>
 MCPageSizes == {1, 2, 5}
+MCPasswords == {"pw-one", "pw-two"}
+MCSpellings == {"canon", "mixed"}
+MCSpellings1 == {"canon"}
+MCPasswords1 == {"pw-one"}
+MCPageSizes1 == {2}
 MCUrls1 == {"rtsp://h1/a"}
 MCPageSizes2 == {1, 5}
 =============================================================================
